@@ -12,4 +12,7 @@ func c09(c *Check) {
 	c.Rule("C09/guards", "frozen table: structural header validity (vanity+seal length, zero mix digest, no uncles, non-zero difficulty), validator bytes only on epoch blocks and a multiple of 20, direct child of the head (number+1 and parent hash), gas bounds, seal recovered and equal to the coinbase, signer in the snapshot of the current validator set, signer not among the recent floor(N/2)+1 window, in-turn ⇒ difficulty 2 / out-of-turn ⇒ difficulty 1 with in-turn = sorted validators[(number+1) mod n], signer recorded, pending set stored only at epoch blocks from the header's extra data, switch to the pending set only at offset len(validators)/2, consensus state = header root/height/time, head := header; success returns dominated by all guards", 45)
 	n := c.Frozen("C09")
 	c.Extra["frozen_entries"] = n
+	c.Rule("C09/pending-set-recorded-before-switch", "within one update the list announced by an epoch header is recorded (SetPendingValidators) before the switch block can read the pending list (GetPendingValidators): with a single validator the switch offset floor(1/2) is 0, the epoch header is also the switch header, and the set that becomes active must be the one that very header carries", 1)
+	neverBefore(c, "C09/pending-set-recorded-before-switch", c.F("x/xibc/clients/light-clients/bsc/types.update"), "bsc/types.GetPendingValidators", "bsc/types.SetPendingValidators",
+		"the pending list is never read before it is recorded", "the pending validator list is read (switch block) on a path that records the epoch header's list only afterwards: for a validator set of size one the stale list becomes active and the announced one is never applied")
 }
